@@ -184,8 +184,13 @@ func sysOfSpan(s []span) System {
 
 // Union replaces the receiver with the set union of the receiver and the argument.
 func (s *Set) Union(t Set) error {
+	// canon works in place, and the receiver's slice may share its backing
+	// array (and spare capacity) with other Sets, so work on a fresh slice.
+	spans := make([]span, 0, len(s.span)+len(t.span))
+	spans = append(spans, s.span...)
+	spans = append(spans, t.span...)
 	var err error
-	s.span, err = canon(append(s.span, t.span...))
+	s.span, err = canon(spans)
 	return err
 }
 
